@@ -429,6 +429,10 @@ def meta_from_cfg(cfg, rnd, ns=1000):
             ln = f"imDatPrb_type={cfg['prbType']}"
         if (k == "imDatPrb_port" and not cfg["port"]) or (k == "imDatPrb_slot" and not cfg["slot"]):
             continue
+        if k in ("imDatPrb_port", "imDatPrb_slot"):
+            # the generation is decided by the PRESENCE of the two keys: any value, including 0, must give the same answer
+            vals = [1, 2, 0, 4, 3, 0] if k == "imDatPrb_port" else [2, 0, 3, 4, 0, 2]
+            ln = f"{k}={vals[(ap + 3 * lf + sy + len(cfg['imro']) + cfg['rangeC'] + max(cfg['maxInt'], 0)) % len(vals)]}"
         if k.replace("~", "") == "imroTbl":
             hdr = "(641251510,3,384)" if kind == "3A" else f"({cfg['prbType']},384)"
             ln = f"{k}={hdr}" + "".join("(" + " ".join(str(x) for x in e) + ")" for e in cfg["imro"])
@@ -456,6 +460,9 @@ def full_size_texts(ctx, rnd):
                                            nsync=rnd.choice([1, 1, 0]), gains=gains, range_max=rg, maxint=mi, write_maxint=wm,
                                            fs=rnd.choice([30000, 2500, 30000.390639481]),
                                            encoding=rnd.choice(["shank", "geom"]) if major != "NPultra" else "shank")
+                if kind == "3B2" and rnd.random() < 0.3:      # port / slot numbers vary (0 included): only their presence matters
+                    txt = txt.replace("imDatPrb_port=1", f"imDatPrb_port={rnd.choice([0, 2, 3, 4])}").replace(
+                        "imDatPrb_slot=2", f"imDatPrb_slot={rnd.choice([0, 3, 4])}")
                 if kind == "3B2" and rnd.random() < 0.3:      # 3B1: no port / slot
                     txt = "".join(ln + "\n" for ln in txt.splitlines() if not ln.startswith(("imDatPrb_port", "imDatPrb_slot")))
                 if major == 2 and rnd.random() < 0.4:
